@@ -715,12 +715,11 @@ func (e *Enc) enterLoop(fr *Frame, li *LoopInfo, h *ssa.BasicBlock, inEdges []Te
 	}
 	sortStrings(mk)
 	a0 := e.get(fr.entry, "alloc", "Int")
+	if mods["alloc"] {
+		e.havocAlloc(st) // first: the heap invariant of the havocked heaps refers to it
+	}
 	for _, k := range mk {
-		if k == "*" {
-			continue
-		}
-		if k == "alloc" {
-			e.havocAlloc(st)
+		if k == "*" || k == "alloc" {
 			continue
 		}
 		srt, ok := stateSorts[k]
@@ -728,7 +727,7 @@ func (e *Enc) enterLoop(fr *Frame, li *LoopInfo, h *ssa.BasicBlock, inEdges []Te
 			continue
 		}
 		pre := e.get(st, k, srt)
-		st.m[k] = e.B.declConst(k+"@loop", srt)
+		st.m[k] = e.baseHeap(st, k, "@loop", srt)
 		if freshOnly[k] && strings.HasPrefix(k, "HS.") {
 			q := e.B.freshName("fr")
 			e.B.assume(fmt.Sprintf("(forall ((%s Int)) (! (=> (>= %s %s) (= (select %s %s) (select %s %s))) :pattern ((select %s %s))))",
